@@ -14,6 +14,10 @@ from . import cfg
 from .facts import callee
 
 
+MUT_WRITERS = ("::push", "::insert", "::extend", "::append", "::push_back", "::push_front", "::push_str", "::extend_from_slice",
+               "::entry", "::or_insert", "::or_default", "::or_insert_with", "::insert_full", "::replace", "::get_or_insert_with", "::union_with")
+
+
 def variant_switches(fn, adt_suffix):
     """Yield (block, scrutinee place, {variant idx: target}, otherwise) for each
     `switch discr(place)` on an ADT whose path ends with adt_suffix."""
@@ -165,8 +169,8 @@ class Labels:
                             new |= set(extra)
                     if new:
                         changed |= self._add(t[3][0], new)
-                        # side effect through &mut arguments (push / insert / extend ...)
-                        for o in t[2]:
+                        # side effect through &mut arguments: only for collection writers (push / insert / extend ...)
+                        for o in (t[2] if c.endswith(MUT_WRITERS) else ()):
                             if o[0] in ("c", "m") and len(o[1]) == 1 and o[1][0] in self._mutref:
                                 changed |= self._add(self._mutref[o[1][0]], new)
                                 changed |= self._add(o[1][0], new)
